@@ -5,6 +5,7 @@ pub mod gen;
 pub mod graph;
 pub mod oracle;
 pub mod run;
+pub mod symmetry;
 
 use crate::common::{Counters, RunReport, Violation};
 use graph::*;
